@@ -12,7 +12,7 @@ COMMENT_BODIES = [" comment", "", " it's", ' say "hi', " x = 1", "$omp parallel"
 
 DEFAULTS = dict(wrap=72, p_comment=0.1, p_blank=0.04, p_between=0.15, p_inline=0.08, p_zero_col6=0.0,
                 p_extra_break=0.15, comments=True, p_semi=0.0, label_align="random", indent_body=True,
-                p_case=0.0, p_head_break=0.06)
+                p_case=0.0, p_head_break=0.06, p_label_blank=0.05)
 
 
 def render(P, rng, opts=None):
@@ -38,6 +38,7 @@ def render(P, rng, opts=None):
     while i < n:
         st = P.stmts[i]
         r = _random.Random(base * 1000003 + (st.oid if st.oid is not None else i))
+        r2 = _random.Random(base * 7919 + 17 * (st.oid if st.oid is not None else i) + 5)   # separate stream: older layouts keep their shape
         if o["comments"]:
             while r.random() < o["p_comment"]:
                 comment_line(r, "full", i)
@@ -63,13 +64,16 @@ def render(P, rng, opts=None):
             pad = 5 - len(label)
             left = r.randint(0, pad) if label else 0
             lab = (" " * left + label).ljust(5)
+            if 2 <= len(label) <= 4 and r2.random() < o["p_label_blank"]:
+                # blanks are insignificant in fixed form, also between the digits of a label
+                k = r2.randint(1, len(label) - 1)
+                lab = (" " * r2.randint(0, pad - 1) + label[:k] + " " + label[k:]).ljust(5)
         col6 = "0" if r.random() < o["p_zero_col6"] else " "
         start_line = len(lines) + 1
         # cut the body into chunks
         chunks = []
         rest = body
         head = None
-        r2 = _random.Random(base * 7919 + 17 * (st.oid if st.oid is not None else i) + 5)   # separate stream: older layouts keep their shape
         if r2.random() < o["p_head_break"]:
             # the first line ends right after (or inside) one of the statement's leading tokens
             from .lexer import lex_spans
